@@ -55,7 +55,11 @@ def _ops_first(dim):
     """First operations (one case each): the full alphabet plus batches of four."""
     cs = ALPHA[dim]
     four = [t for t in itertools.permutations(cs, 4)] if len(cs) >= 4 else []
-    four += [(a, b, a, c) for a in cs for b in cs for c in cs if len({a, b, c}) == 3][:24]
+    # batches of four with at least one repeated coordinate, every arrangement (the last
+    # occurrence must win in overwrite mode whatever the sort used internally)
+    four += [t for t in itertools.product(cs[:3], repeat=4) if len(set(t)) < 4]
+    # one long batch per starting coordinate (sorting networks change above 16 entries)
+    four += [tuple(cs[(i + 7 * k) % len(cs)] for k in range(19)) for i in range(len(cs))]
     return _ops(dim) + [(b, add) for b in four for add in (False, True)]
 
 
